@@ -120,7 +120,13 @@ func (g *richGen) stmt() {
 		case 4:
 			g.ln(`emit("s%d", string.upper(%s), string.reverse(%s), string.byte(%s, 1, -1))`, n, g.str(), g.str(), g.str())
 		case 5:
-			g.ln(`emit("s%d", #string.pack("i4zs2", %d, %s, %s), string.unpack("<i2", string.pack("<i2", %d)))`, n, g.num(), g.str(), g.str(), g.num())
+			if g.t.Chance(1, 3) {
+				// a payload of a few kB: packing, unpacking and dumping draw on a budget computed from
+				// what the context has left
+				g.ln(`do local big = ("p"):rep(%d) local pk = string.pack("s4", big) emit("s%d", #pk, #string.unpack("s4", pk), #string.dump(load("return '" .. big .. "'"))) end`, 1000+g.num()*300, n)
+			} else {
+				g.ln(`emit("s%d", #string.pack("i4zs2", %d, %s, %s), string.unpack("<i2", string.pack("<i2", %d)))`, n, g.num(), g.str(), g.str(), g.num())
+			}
 		case 6:
 			g.ln(`local c%d = 0; for w in string.gmatch(string.rep("w%d ", %d), "%%a%%d") do c%d = c%d + 1 end; emit("s%d", c%d, utf8.char(72, 228, 8364), utf8.len("häh"))`, n, n%10, g.sizeN()%100+1, n, n, n, n)
 		}
